@@ -13,6 +13,11 @@
 (*   "read"   read a built-in module variable into the job's output         *)
 (*   "write"  try to assign a built-in module variable (must fail)          *)
 (*   "def"    define a user variable/function named like a built-in         *)
+(*   "writeg" / "writed" / "usewith"  the same attempt spelled with         *)
+(*            !global, with !default, or as `@use "sass:math" with (...)`   *)
+(*   "failcall"  an @error raised deep inside nested user function calls     *)
+(*            (the compilation fails; nothing may be left behind)           *)
+(*   "deepcall"  a valid deep recursion of user functions                    *)
 (*   "uid"    call unique-id(): Acquire; Incr; Release as separate steps    *)
 (*   "pure"   a step that touches only the job's own scope                  *)
 (*                                                                          *)
@@ -83,7 +88,8 @@ DoRead(t) == /\ InStep(t, "read")
 
 (* math.$pi: 4  -  ScopeError::ModifiedBuiltin: the compilation fails (-1   *)
 (* in the output, rest of the job skipped)                                   *)
-DoWrite(t) == /\ InStep(t, "write")
+WriteKinds == {"write", "writeg", "writed", "usewith"}
+DoWrite(t) == /\ \E k \in WriteKinds : InStep(t, k)
               /\ IF "builtin_write_allowed" \in Dev
                  THEN /\ builtin' = 4 /\ out' = [out EXCEPT ![t] = Append(@, 0)]
                       /\ Advance(t)
@@ -96,6 +102,18 @@ DoDef(t) == /\ InStep(t, "def")
             /\ builtin' = IF "user_def_leaks" \in Dev THEN 7 ELSE builtin
             /\ Advance(t)
             /\ UNCHANGED <<callId, holder, queue, phase, tmp, out, done, issued>>
+
+(* an error raised inside nested function calls ends the job; shared state  *)
+(* and the thread are exactly as before                                      *)
+DoFailCall(t) == /\ InStep(t, "failcall")
+                 /\ out' = [out EXCEPT ![t] = Append(@, -1)]
+                 /\ pc' = [pc EXCEPT ![t] = Len(Cur(t)) + 1]
+                 /\ UNCHANGED <<builtin, callId, holder, queue, phase, tmp, local, done, issued>>
+
+DoDeepCall(t) == /\ InStep(t, "deepcall")
+                 /\ out' = [out EXCEPT ![t] = Append(@, 2)]
+                 /\ Advance(t)
+                 /\ UNCHANGED <<builtin, callId, holder, queue, phase, tmp, local, done, issued>>
 
 DoPure(t) == /\ InStep(t, "pure")
              /\ out' = [out EXCEPT ![t] = Append(@, 1)]
@@ -131,6 +149,7 @@ UidRelease(t) == /\ phase[t] = "rel"
 
 PNext == \E t \in Threads :
            StartJob(t) \/ EndJob(t) \/ DoRead(t) \/ DoWrite(t) \/ DoDef(t) \/ DoPure(t)
+           \/ DoFailCall(t) \/ DoDeepCall(t)
            \/ UidAcquire(t) \/ UidIncr(t) \/ UidRelease(t)
 
 ---------------------------------------------------------------------------
